@@ -58,13 +58,15 @@ variable {L : LinkCfg} {Pa Pb : List Bytes} {A : Bytes} {p a b : Nat} {s0 s : Ne
 /-- **The last fragment completes the message**: `write()` has returned (the sender listens again), a LAST
     fragment `g` (not of external data) waits in `b`'s RX FIFO.  The next `update()` of `b`, entered as the
     test session does (`ret`, `callAs`), returns the fragment's type; `b`'s queue object is what
-    `queue.enqueue(g)` makes of it, every other node's queue is as at the start. -/
-theorem deliver_last (hc : L3Contracts) (E : FragEnv Pb A p a b s0) {pl : Bytes} {last : Option Bytes}
+    `queue.enqueue(g)` makes of it, every other node's queue is as at the start, and every RX FIFO of the
+    network is empty (`b` has read its one entry, no other radio was touched). -/
+theorem deliver_last (hc : L3Contracts) (E : FragEnv L Pb A p a b s0) {pl : Bytes} {last : Option Bytes}
     (h : FragSt L Pa Pb A p a b s0 s (true, true, 0x3E) (some pl) last q) (g : Frame)
     (hok : FragOk (s0.nodeAt b).a.addr pl g) (hty : g.header.ty = MSG_FRAG_LAST)
     (hres : g.header.reserved ≠ NETWORK_EXT_DATA) (hsize : s0.nodes.length ≤ 100000) :
     ∃ s2, nexec apiUpdate ((s.ret).callAs b) = (.ok MSG_FRAG_LAST, s2) ∧ s2.nodes.length = s0.nodes.length ∧
-      (s2.nodeAt b).queue = (q.enqueue g).1 ∧ ∀ j, j ≠ b → (s2.nodeAt j).queue = (s0.nodeAt j).queue := by
+      (s2.nodeAt b).queue = (q.enqueue g).1 ∧ (∀ j, j ≠ b → (s2.nodeAt j).queue = (s0.nodeAt j).queue) ∧
+      ∀ i, i < s0.nodes.length → (s2.radioAt i).rxFifo = [] := by
   obtain ⟨k1, k32, kun, kto, kvt, kvf⟩ := hok
   have hba : b ≠ a := fun e => E.hab e.symm
   generalize ht : (s.ret).callAs b = t
@@ -109,19 +111,50 @@ theorem deliver_last (hc : L3Contracts) (E : FragEnv Pb A p a b s0) {pl : Bytes}
       decide)
   rw [hty] at eu
   rw [htn, htq b, h.rcvQ, hg] at U
-  obtain ⟨Uc, _, _, Ul, Uo, d, Un, _⟩ := U
-  refine ⟨t', eu, by rw [Ul, htl], ?_, ?_⟩
-  · have : t'.nodeAt b = t'.node := by rw [node_eq_nodeAt, Uc, htc]
-    rw [this, Un]
+  obtain ⟨Uc, _, _, Ul, Uo, d, Un, F, _, x⟩ := U
+  have ht'b : t'.nodeAt b = t'.node := by rw [node_eq_nodeAt, Uc, htc]
+  refine ⟨t', eu, by rw [Ul, htl], ?_, ?_, ?_⟩
+  · rw [ht'b, Un]
   · intro j hj
     rw [Uo j (by rw [htc]; exact hj), htq j]
     exact h.queues j hj
+  · -- quiescence: `b` has read its one entry, nobody else's radio was touched
+    intro i hi
+    by_cases hib : i = b
+    · subst hib
+      have : t'.radioAt i = t'.w.radio d.rid := by
+        unfold NetState.radioAt NetState.ridAt
+        rw [ht'b, Un]
+      rw [this]; exact x
+    · have hri : t'.ridAt i = s0.ridAt i := by
+        unfold NetState.ridAt
+        rw [Uo i (by rw [htc]; exact hib), htrf i]
+        exact h.rid i
+      have hne : s0.ridAt i ≠ t.drv.d.rid := by
+        show _ ≠ t.node.rf.rid
+        rw [htn, htrf b]
+        show _ ≠ s.ridAt b
+        rw [h.rid b]
+        exact E.rid i b hi E.hb hib
+      have hrad : t'.radioAt i = s.radioAt i := by
+        have := F.others _ hne
+        simp only [] at this
+        rw [← htrad i]
+        unfold NetState.radioAt
+        rw [hri, this, (hsame.stat i).2.2.2.2, h.rid i]
+        rfl
+      rw [hrad]
+      by_cases hia : i = a
+      · subst hia; exact h.sndFifo
+      · exact h.third_fifo E i hi hia hib
 
 end
 
 /-- **A fragmented user message between two neighbours is delivered exactly once, intact** — closed system
     (`runOthers`), loss-free, under the driver contracts.  The statement is that of
-    `Nrf.Props.C05.C05_two_nodes_frag`. -/
+    `Nrf.Props.C05.C05_two_nodes_frag`.  `hdup`: the packet `b`'s radio accepted last (if any) is not the
+    packed FIRST fragment of this message; `hothers`: no third radio listens to a unicast packet for the
+    address of `b`'s pipe `hopPipe x y` (`Nrf.Net.NetOk.hothers`). -/
 theorem two_nodes_frag (hc : L3Contracts) (cfg : AddrCfg) (hcfg : CfgOk cfg) (L : LinkCfg)
     (s : NetState) (a b : Nat) (x y : List Nat) (Pa Pb : List Bytes) (ty : Int) (msg : Bytes)
     (hx : IsNode x) (hy : IsNode y) (hadj : nextHopSpec x y = y) (hxy : x ≠ y)
@@ -135,11 +168,14 @@ theorem two_nodes_frag (hc : L3Contracts) (cfg : AddrCfg) (hcfg : CfgOk cfg) (L 
     (hmax : msg.length ≤ (s.nodeAt a).maxMessageLength) (hlen : MAX_FRAG_SIZE < msg.length)
     (hlen144 : msg.length ≤ 144)
     (hNb : NodeRadio L Pb true true 0x3E (s.nodeAt b).rf (s.radioAt b))
-    (hPb : beginPipes cfg (val y) = .ok Pb) (hlast : (s.radioAt b).lastRx = none)
+    (hPb : beginPipes cfg (val y) = .ok Pb)
+    (hdup : NotDupFrame (s.radioAt b) ⟨⟨val x, val y, s.nextId &&& 0xFFFF, .int MSG_FRAG_FIRST,
+      fragTotal msg.length⟩, msg.take MAX_FRAG_SIZE⟩)
     (haddr_b : (s.nodeAt b).a = nodeSpec y) (harr_b : (s.nodeAt b).arrivals = [])
     (hkind_b : (s.nodeAt b).kind ≠ .meshMaster) (hfrag_b : (s.nodeAt b).queue.frag = true)
     (hquiet : ∀ i, i < s.nodes.length → (s.radioAt i).rxFifo = [])
-    (hothers : ∀ r k, r ≠ s.ridAt a → r ≠ s.ridAt b → (s.w.radio r).listensTo k = none)
+    (hothers : ∀ r A buf pid, r ≠ s.ridAt a → r ≠ s.ridAt b → Pb[hopPipe x y]? = some A →
+      (s.w.radio r).listensTo (unicastPacket L A buf pid) = none)
     (hfaults : s.w.faults = []) (hty : 0 ≤ ty ∧ ty ≤ 127)
     (hroom : ((s.nodeAt b).queue.frames.length : Int) < (s.nodeAt b).queue.maxSize)
     (hnew : ∀ g ∈ (s.nodeAt b).queue.frames, ¬ (g.header.fromNode = val x ∧
@@ -147,7 +183,8 @@ theorem two_nodes_frag (hc : L3Contracts) (cfg : AddrCfg) (hcfg : CfgOk cfg) (L 
     ∃ s1 s2, nexec (apiNetWrite (val y) ty msg AUTO_ROUTING) s =
         (.ok (true, callerFrame x y s.nextId ty msg), s1) ∧
       nexec apiUpdate ((s1.ret).callAs b) = (.ok MSG_FRAG_LAST, s2) ∧
-      DeliveredOnce s.nodes s2.nodes b (val x) ty.toNat msg := by
+      DeliveredOnce s.nodes s2.nodes b (val x) ty.toNat msg ∧
+      ∀ i, i < s.nodes.length → (s2.radioAt i).rxFifo = [] := by
   subst hcur
   have hvx : val x < 4096 := val_lt_4096 hx
   have hvy : val y < 4096 := val_lt_4096 hy
@@ -210,19 +247,20 @@ theorem two_nodes_frag (hc : L3Contracts) (cfg : AddrCfg) (hcfg : CfgOk cfg) (L 
     show logi2phys s.node.a _ _ = _
     rw [hnode, haddr_a, l2p_tree hx hy (Or.inl rfl), hadj]
   -- the situation
-  have E : FragEnv Pb A (hopPipe x y) s.cur b s' := by
+  have E : FragEnv L Pb A (hopPipe x y) s.cur b s' := by
     refine ⟨by rw [hs'l]; exact ha, by rw [hs'l]; exact hb, hab, ?_, by rw [hs'rid, hs'w]; exact hWa,
       by rw [hs'rid, hs'w]; exact hWb, ?_, ?_, hA2, hp1, hp5, hA3, by rw [hs'at b hba]; exact hkind_b⟩
     · intro i j hi hj hij
       rw [hs'rid, hs'rid]; exact hrid i j (by rw [← hs'l]; exact hi) (by rw [← hs'l]; exact hj) hij
     · intro i hi _
       rw [hs'rad]; exact hquiet i (by rw [← hs'l]; exact hi)
-    · intro r k hra hrb
-      rw [hs'w]; exact hothers r k (by rw [← hs'rid]; exact hra) (by rw [← hs'rid]; exact hrb)
-  have h0 : FragSt L Pa Pb A (hopPipe x y) s.cur b s' s' (true, true, 0x3E) none none (s.nodeAt b).queue := by
+    · intro r buf pid hra hrb
+      rw [hs'w]; exact hothers r A buf pid (by rw [← hs'rid]; exact hra) (by rw [← hs'rid]; exact hrb) hA2
+  have h0 : FragSt L Pa Pb A (hopPipe x y) s.cur b s' s' (true, true, 0x3E) none
+      ((s.radioAt b).lastRx.map (·.data)) (s.nodeAt b).queue := by
     refine ⟨hs'c, by rw [hs'a, hact], hs'cl, rfl, by rw [hs'w]; exact hfaults, rfl, fun _ => rfl, ?_,
       (by intro e; cases e), by rw [hs'rad]; exact hquiet _ ha, by rw [hs'at b hba, hs'rad]; exact hNb,
-      by rw [hs'rad]; exact hquiet b hb, by rw [hs'rad, hlast]; rfl, by rw [hs'at b hba],
+      by rw [hs'rad]; exact hquiet b hb, by rw [hs'rad], by rw [hs'at b hba],
       ⟨rfl, by rw [hs'at b hba]; exact harr_b, rfl⟩, fun _ _ _ => rfl, fun _ _ => rfl⟩
     rw [hs'ata, hs'n, hs'rad]; exact hNa
   -- the plan
@@ -243,7 +281,25 @@ theorem two_nodes_frag (hc : L3Contracts) (cfg : AddrCfg) (hcfg : CfgOk cfg) (L 
   have htrl : tr.length = n := by rw [← htr]; exact fragTr_length _ _ _ _ _ _ _ _
   have htrne : tr ≠ [] := by
     intro e; rw [e] at htrl; simp at htrl; omega
-  obtain ⟨s1, xl, hxl, e1, h1⟩ := nodeWrite_frag hc E h0 199998 (val y) (hopPipe x y) ty.toNat tr
+  -- the receiver's duplicate filter is silent for the first fragment
+  have hfirst : ∀ t, tr.head? = some t → (s.radioAt b).lastRx.map (·.data) ≠ some t.2.1 := by
+    intro t ht e
+    rw [← htr] at ht
+    have hpk := fragTr_head_pack (val x) (val y) (s.nextId &&& 0xFFFF) ty.toNat n msg hb2.1 (by omega) (by omega)
+      hb2.2.2 n _ (Nat.le_refl n) rfl rfl rfl t ht
+    have hr0 : rxFrag (val x) (val y) (s.nextId &&& 0xFFFF) ty.toNat n msg (n - n) =
+        ⟨⟨val x, val y, s.nextId &&& 0xFFFF, .int MSG_FRAG_FIRST, fragTotal msg.length⟩, msg.take MAX_FRAG_SIZE⟩ := by
+      rw [Nat.sub_self, hn]
+      unfold rxFrag
+      rw [if_neg (by omega), if_pos rfl]; rfl
+    rw [hr0] at hpk
+    cases hl : (s.radioAt b).lastRx with
+    | none => rw [hl] at e; cases e
+    | some l =>
+      rw [hl] at e
+      simp only [Option.map_some, Option.some.injEq] at e
+      exact hdup l hl (by rw [e]; exact hpk)
+  obtain ⟨s1, xl, hxl, e1, h1⟩ := nodeWrite_frag hc E h0 199998 (val y) (hopPipe x y) ty.toNat tr hfirst
     (by rw [hs'n]; show pipeAddress s.node.cfg _ _ = _; rw [hnode, hcfg_a]; exact hA1)
     (by
       rw [hs'n]
@@ -265,10 +321,10 @@ theorem two_nodes_frag (hc : L3Contracts) (cfg : AddrCfg) (hcfg : CfgOk cfg) (L 
   have hlastfr : rxFrag (val x) (val y) (s.nextId &&& 0xFFFF) ty.toNat n msg (n - 1) =
       ⟨⟨val x, val y, s.nextId &&& 0xFFFF, .int MSG_FRAG_LAST, ty.toNat⟩, msg.drop (24 * (n - 1))⟩ := by
     unfold rxFrag; rw [if_pos (by omega)]
-  obtain ⟨s2, e2, l2, q2, o2⟩ := deliver_last hc E h1 xl.2.2 hxok (by rw [hxg, hlastfr]; rfl)
+  obtain ⟨s2, e2, l2, q2, o2, z2⟩ := deliver_last hc E h1 xl.2.2 hxok (by rw [hxg, hlastfr]; rfl)
     (by rw [hxg, hlastfr]; show ty.toNat ≠ NETWORK_EXT_DATA; unfold NETWORK_EXT_DATA; omega)
     (by rw [hs'l]; omega)
-  refine ⟨s1, s2, hw, e2, ?_⟩
+  refine ⟨s1, s2, hw, e2, ?_, fun i hi => z2 i (by rw [hs'l]; exact hi)⟩
   -- exactly once, nowhere else
   have hframes : (tr.map (·.2.2)).dropLast ++ [xl.2.2] = (List.range n).map
       (rxFrag (val x) (val y) (s.nextId &&& 0xFFFF) ty.toNat n msg) := by
